@@ -2,6 +2,7 @@
 (* Design check: the queue mechanics of EventBus satisfy the declarative statement of C01,       *)
 (* recorded over a history of dispatch begins, deliveries and callbacks.                          *)
 EXTENDS EventBus
+MCCondSet == {-1, 1}
 VARIABLE hist     \* sequence of [k: "begin"|"invoke"|"callback", i, h, prio, regAtBegin]
 mcvars == <<vars, hist>>
 MCInit == Init /\ hist = <<>>
